@@ -6,6 +6,14 @@ CHECKS = {
  "C19": ("Coq: exhaustive vm_compute theorem on the function regenerated from output.py (all 8760 hours) + unbounded theorems (monotone, Lipschitz, month ends) on the reference conversion; exact Fraction correspondence with the real code",
          "theorems are about exact rationals; the generated hours_to_month is tied to the reference by computation on samples, not by an unbounded proof; CSV writers observed on real runs", "6 C19"),
 }
+CHECKS.update({
+ "C01": ("Coq: C01_feasible for every excess oracle / candidate list / cap / policy (search model + solve_root model, leaf expressions regenerated from the source), cost_spec on the regenerated BaseGHE.cost; exact correspondence of the model with the real Bisection1D/2D/ZD code on ~2.4k stub-oracle searches per run; re-simulation of real designs",
+         "premises visible in the theorem: brentq contract, objective agreement at the bracket ends (measured on real runs), no exactly-zero excess; RowWise search not modelled (covered by end-to-end runs only)", "6 C01"),
+ "C02": ("Coq: height bounds, cap, complete unmet-design policy (both directions), only-ValueError theorem, for every oracle; same correspondence; boundary end-to-end runs with both policy values",
+         "brentq returns a point of its bracket (premise); non-degeneracy = admissible upper index and no exactly-zero excess; RowWise covered by end-to-end runs only", "6 C02"),
+ "C05": ("Coq: bisection loop invariant (adjacent end, every list length <= 2^max_iter with max_iter read from the source), first-feasible and no-larger-than-evaluated theorems for every oracle, solve_root case theorem, ZD selection theorem; same correspondence; root/drilling checked on real designs",
+         "distinct evaluated excess values assumed (C05_ties_refuted shows the lookup-by-value behaviour otherwise); ZD 'smallest count' only under monotone excess", "6 C05"),
+})
 NA = {}
 def main():
     checks = []
